@@ -58,7 +58,8 @@ Contains(live, t) == IdentTaken(live, t, NONE)
 ContainsKeyed(live, t, k) == IdentTaken(live, t, k)
 SliceOf(live) == [i \in DOMAIN live |-> [t |-> live[i].t, k |-> live[i].k, g |-> live[i].g, life |-> live[i].life]]
 Bag(seq) == [x \in Range(seq) |-> Cardinality({i \in DOMAIN seq : seq[i] = x})]
-ResolvableSet(live) == {d.t \o "/" \o d.k : d \in {live[i] : i \in {j \in DOMAIN live : live[j].g = NONE}}}
+\* "type/key=item": every live non-group identity resolves, and to an instance made by ITS registration
+ResolvableSet(live) == {d.t \o "/" \o d.k \o "=" \o d.item : d \in {live[i] : i \in {j \in DOMAIN live : live[j].g = NONE}}}
 GroupSize(live, t, g) == Cardinality({i \in DOMAIN live : live[i].t = t /\ live[i].g = g})
 \* constructors that run at Build: one invocation per singleton item that still provides something
 EagerItems(live) == {live[i].item : i \in {j \in DOMAIN live : live[j].life = "singleton" /\ live[j].shape # "inst"}}
